@@ -83,6 +83,12 @@ namespace {
          };
          one("position", 64, [&] { pp << ipr::Decl_position{64}; });
          one("level", 10, [&] { pp << ipr::Mapping_level{10}; });
+         // small, round and very large values (the largest the specification's integers hold)
+         one("position", 0, [&] { pp << ipr::Decl_position{0}; });
+         one("position", 1000000, [&] { pp << ipr::Decl_position{1000000}; });
+         one("position", 2147483647, [&] { pp << ipr::Decl_position{2147483647}; });
+         one("level", 0, [&] { pp << ipr::Mapping_level{0}; });
+         one("level", 2147483647, [&] { pp << ipr::Mapping_level{2147483647}; });
          return out;
       }
    };
@@ -553,6 +559,9 @@ namespace {
             auto st = const_cast<ipr::Stmt*>(a.order[k]);
             long file = 2 + static_cast<long>(k), ln = 10 + 3 * static_cast<long>(k), col = (k % 4 == 0) ? 0 : 5 + static_cast<long>(k);
             if (k % 5 == 2) { ln = 0; col = 0; }            // a location that names a file only (what a front end gives built-in entities)
+            // the largest values the specification's integers can hold (ten digits: no room to spare in any fixed-size conversion)
+            if (k % 7 == 3) { ln = 2147483647; col = 2147483647; }
+            if (k % 11 == 5) file = 2147483647;
             ipr::Source_location loc;
             loc.file = ipr::File_index{static_cast<std::uint32_t>(file)};
             loc.line = ipr::Line_number{static_cast<std::uint32_t>(ln)};
